@@ -603,3 +603,39 @@ pub fn replay(v: &serde_json::Value) -> i32 {
         }
     }
 }
+
+/// Determinism of the simulator itself: the same jobs at host parallelism 16, 3 and 1
+/// (different children, different k-th positions) must give identical event logs.
+pub fn determinism_test(seed: u64, njobs: usize) -> i32 {
+    let reg = crate::scenarios::registry();
+    let planned = plan(&reg, "quick", seed, None);
+    let stride = (planned.jobs.len() / njobs.max(1)).max(1);
+    let jobs: Vec<Job> = planned.jobs.iter().step_by(stride).enumerate().map(|(i, j)| Job { id: i, kind: j.kind.clone() }).collect();
+    let log = |rs: &[JobResult]| -> Vec<String> {
+        rs.iter()
+            .map(|r| match &r.body {
+                Body::C20 { fps, stats, choices } => format!(
+                    "{:?}|{}|{}|{}|{}|{}|{}|{}|{}|{:x}",
+                    fps.as_ref().map(|v| v.iter().map(|f| f.digest()).collect::<Vec<_>>()),
+                    stats.sched_hash, stats.decisions, stats.steals, stats.entropy_calls, stats.entropy_bytes, stats.hashkey_draws, stats.clock_reads, stats.sim_time_ns,
+                    crate::fp::fnv(format!("{choices:?}").as_bytes())
+                ),
+                _ => String::new(),
+            })
+            .collect()
+    };
+    let a = log(&run_jobs(&jobs, 16));
+    let b = log(&run_jobs(&jobs, 3));
+    let c = log(&crate::driver::run_jobs_fresh_each(&jobs, 16));
+    let mut bad = 0;
+    for i in 0..jobs.len() {
+        if a[i] != b[i] || a[i] != c[i] {
+            bad += 1;
+            if bad <= 5 {
+                eprintln!("determinism test: job {} differs between host configurations:\n  16 workers: {}\n   3 workers: {}\n  fresh proc: {}\n  job: {}", i, a[i], b[i], c[i], serde_json::to_string(&jobs[i]).unwrap());
+            }
+        }
+    }
+    println!("determinism test: {} jobs x 3 host configurations (16 children, 3 children, one fresh process each), {} differing", jobs.len(), bad);
+    if bad > 0 { 2 } else { 0 }
+}
